@@ -19,7 +19,10 @@
 (* without looking again;  Defect = "range-split": Range snapshots the keys   *)
 (* and then Loads each key under a lock of its own (so that the callback may *)
 (* call back into the map) - it can report a view no instant ever had.  All  *)
-(* three must make TLC report a violation.                                   *)
+(* Defect = "range-leaks-rlock": a Range whose callback returned false       *)
+(* returns with the read lock still held, so every later writer waits for    *)
+(* ever (LockHeldOnlyInBody, NoStuckWaiter).  All four must make TLC report  *)
+(* a violation.                                                              *)
 EXTENDS AtomicMap, TLC
 
 CONSTANTS Procs, Keys, MaxOps, MapOps, AtomOps, Defect
@@ -43,6 +46,7 @@ Invocations(p) ==
     \cup {[op |-> o, k |-> k] : o \in MapOps \cap {"load", "delete", "loadanddelete"}, k \in Keys}
     \cup {[op |-> o] : o \in MapOps \cap {"len", "clear"}}
     \cup {[op |-> "range", n |-> 99] : x \in IF "range" \in MapOps THEN {1} ELSE {}}
+    \cup {[op |-> "range", n |-> 1] : x \in IF "range1" \in MapOps THEN {1} ELSE {}}     \* callback returns false at once
     \cup {[op |-> "getorcreate", k |-> k, v |-> p * 10] : k \in IF "getorcreate" \in AtomOps THEN Keys ELSE {}}
     \cup {[op |-> o, k |-> k] : o \in AtomOps \cap {"get", "adelete"}, k \in Keys}
     \cup {[op |-> o] : o \in AtomOps \cap {"aclear"}}
@@ -92,7 +96,9 @@ SeqOf(S) == IF S = {} THEN << >> ELSE LET x == CHOOSE y \in S : TRUE IN <<x>> \o
 Entries(ks) == [i \in 1..Len(ks) |-> [k |-> ks[i], v |-> cm[ks[i]]]]      \* what Range hands to its callback
 LoadRes(k) == IF k \in DOMAIN cm THEN [ok |-> TRUE, v |-> cm[k]] ELSE [ok |-> FALSE, v |-> 0]
 
-Body1(p) == /\ pc[p] = "b1" /\ Release(p)
+(* Defect "range-leaks-rlock": a Range whose callback returned false returns without unlocking *)
+Leaks(p) == /\ Defect = "range-leaks-rlock" /\ cur[p].op = "range" /\ Cardinality(DOMAIN cm) >= cur[p].n
+Body1(p) == /\ pc[p] = "b1" /\ IF Leaks(p) THEN UNCHANGED lock ELSE Release(p)
             /\ LET e == cur[p] IN
                CASE e.op = "store" -> /\ cm' = With(cm, e.k, e.v) /\ res' = [res EXCEPT ![p] = 0] /\ Lin(p, 0)
                                       /\ pc' = [pc EXCEPT ![p] = "ret"] /\ UNCHANGED <<items, hval, nh>>
@@ -112,7 +118,8 @@ Body1(p) == /\ pc[p] = "b1" /\ Release(p)
                         IF Defect = "range-split"      \* snapshot the keys now, Load each of them later, one lock each
                           THEN /\ res' = [res EXCEPT ![p] = [todo |-> SeqOf(DOMAIN cm), got |-> << >>]] /\ NoLin
                                /\ pc' = [pc EXCEPT ![p] = "a2"] /\ UNCHANGED <<cm, items, hval, nh>>
-                          ELSE /\ res' = [res EXCEPT ![p] = Entries(SeqOf(DOMAIN cm))] /\ Lin(p, Entries(SeqOf(DOMAIN cm)))
+                          ELSE LET ks == SeqOf(DOMAIN cm) r == Entries(SubSeq(ks, 1, MinN(e.n, Len(ks)))) IN
+                               /\ res' = [res EXCEPT ![p] = r] /\ Lin(p, r)
                                /\ pc' = [pc EXCEPT ![p] = "ret"] /\ UNCHANGED <<cm, items, hval, nh>>
                  [] e.op = "clear" -> /\ cm' = << >> /\ res' = [res EXCEPT ![p] = 0] /\ Lin(p, 0)
                                       /\ pc' = [pc EXCEPT ![p] = "ret"] /\ UNCHANGED <<items, hval, nh>>
@@ -183,6 +190,12 @@ SameHandle == \A k \in Keys : Cardinality(handles[k]) <= 1 + dels[k]
 RECURSIVE SumAdds(_)
 SumAdds(H) == IF H = {} THEN 0 ELSE LET h == CHOOSE x \in H : TRUE IN (hval[h] % 10) + SumAdds(H \ {h})
 NoLostAdd == SumAdds(DOMAIN hval) = adds      \* cells start at a multiple of 10; fewer than 10 Adds in total
+(* a lock is held only by a process that is inside a method body; hence nobody waits for a lock for ever *)
+LockHeldOnlyInBody == /\ \A p \in lock.r : pc[p] \in {"b1", "b2"}
+                      /\ lock.w # 0 => pc[lock.w] \in {"b1", "b2"}
+NoStuckWaiter == ~ \E p \in Procs : /\ pc[p] \in {"a1", "a2"}
+                                     /\ \A q \in Procs : pc[q] \notin {"b1", "b2"}
+                                     /\ (lock.w # 0 \/ (lock.r # {} /\ WriteMode(cur[p], IF pc[p] = "a1" THEN 1 ELSE 2)))
 MutualExclusion == lock.w # 0 => lock.r = {}
 ImplMatchesAbs == Defect = "none" => cm = abs.map /\ items = abs.atomic.items /\ hval = abs.atomic.val
 =============================================================================
